@@ -109,6 +109,17 @@ def main():
                 if rc != 0:
                     ok = False
                     print("\n".join(l for l in out.splitlines() if l.startswith(("VIOLATION", "violation", "HARNESS")))[:3000])
+        if a.record and a.only:
+            # merge the patches just run into the committed record (the unchanged-tree part stays what the last full run recorded)
+            path = os.path.join(VERIF_DIR, "sensitivity", prop + ".json")
+            if os.path.exists(path):
+                with open(path) as f:
+                    old = json.load(f)
+                ran = {p["patch"] for p in record["patches"]}
+                old["patches"] = [p for p in old["patches"] if p["patch"] not in ran] + record["patches"]
+                old["patches"].sort(key=lambda p: p["patch"])
+                with open(path, "w") as f:
+                    json.dump(old, f, indent=1)
         if a.record and not a.only:
             os.makedirs(os.path.join(VERIF_DIR, "sensitivity"), exist_ok=True)
             with open(os.path.join(VERIF_DIR, "sensitivity", prop + ".json"), "w") as f:
